@@ -1081,3 +1081,134 @@ impl RequestResponseProtocol {
         }
     }
 }
+
+/// Verification hooks (feature `verif`): the request ledger kernel driven handler by handler.
+#[cfg(feature = "verif")]
+pub mod verif_hooks {
+    use super::*;
+    use crate::{
+        protocol::{connection::ConnectionHandle, ProtocolCommand, SubstreamKeepAlive},
+        transport::{manager::TransportManager, Endpoint},
+        types::ConnectionId,
+    };
+    use std::task::{Context, Poll, RawWaker, RawWakerVTable, Waker};
+
+    /// A request-response protocol instance wired to a transport manager, without any task running.
+    pub struct Kernel {
+        protocol: RequestResponseProtocol,
+        event_rx: Receiver<InnerRequestResponseEvent>,
+        commands: Vec<Receiver<ProtocolCommand>>,
+    }
+
+    /// Outcome reported to the user for a request id.
+    #[derive(Debug, Clone, Copy, PartialEq, Eq)]
+    pub enum Outcome {
+        Failed(RequestId),
+        Response(RequestId),
+        Inbound(RequestId),
+    }
+
+    fn noop_waker() -> Waker {
+        fn clone(_: *const ()) -> RawWaker { RawWaker::new(std::ptr::null(), &VTABLE) }
+        fn noop(_: *const ()) {}
+        static VTABLE: RawWakerVTable = RawWakerVTable::new(clone, noop, noop, noop);
+        unsafe { Waker::from_raw(RawWaker::new(std::ptr::null(), &VTABLE)) }
+    }
+
+    fn run<T>(future: impl std::future::Future<Output = T>) -> Option<T> {
+        let mut future = Box::pin(future);
+        let waker = noop_waker();
+        let mut cx = Context::from_waker(&waker);
+        match future.as_mut().poll(&mut cx) {
+            Poll::Ready(value) => Some(value),
+            Poll::Pending => None,
+        }
+    }
+
+    pub fn new_kernel(manager: &mut TransportManager, max_inbound: Option<usize>) -> Kernel {
+        let protocol_name = ProtocolName::from("/verif/req/1");
+        let (event_tx, event_rx) = tokio::sync::mpsc::channel(64);
+        let (_command_tx, command_rx) = tokio::sync::mpsc::channel(64);
+        let config = Config {
+            protocol_name: protocol_name.clone(),
+            fallback_names: Vec::new(),
+            timeout: Duration::from_secs(5),
+            codec: crate::codec::ProtocolCodec::UnsignedVarint(Some(1024)),
+            event_tx,
+            command_rx,
+            next_request_id: Default::default(),
+            max_concurrent_inbound_request: max_inbound,
+        };
+        let (service, _tx) = TransportService::new(
+            crate::PeerId::random(),
+            protocol_name,
+            Vec::new(),
+            Default::default(),
+            manager.transport_manager_handle(),
+            Duration::from_secs(5),
+            SubstreamKeepAlive::Yes,
+        );
+        Kernel { protocol: RequestResponseProtocol::new(service, config), event_rx, commands: Vec::new() }
+    }
+
+    /// `Some(id)` if the request was accepted (the user then waits for exactly one outcome for `id`).
+    pub fn send_request(kernel: &mut Kernel, peer: PeerId, dial: bool) -> Option<RequestId> {
+        let request_id = kernel.protocol.next_request_id();
+        let options = if dial { DialOptions::Dial } else { DialOptions::Reject };
+        kernel.protocol.on_send_request(peer, request_id, vec![1, 2, 3], options, None).ok().map(|_| request_id)
+    }
+
+    /// A connection with `peer` is reported to the protocol (transport service first, then the protocol handler).
+    pub fn connection_established(kernel: &mut Kernel, peer: PeerId, connection_id: ConnectionId) -> bool {
+        let (tx, rx) = tokio::sync::mpsc::channel(16);
+        kernel.commands.push(rx);
+        let endpoint = Endpoint::listener(multiaddr::Multiaddr::empty(), connection_id);
+        let handle = ConnectionHandle::new(connection_id, tx);
+        match crate::protocol::transport_service::verif_hooks::on_connection_established(&mut kernel.protocol.service, peer, endpoint, connection_id, handle) {
+            true => run(kernel.protocol.on_connection_established(peer)).map_or(false, |r| r.is_ok()),
+            false => true,
+        }
+    }
+
+    pub fn connection_closed(kernel: &mut Kernel, peer: PeerId, connection_id: ConnectionId) {
+        if crate::protocol::transport_service::verif_hooks::on_connection_closed(&mut kernel.protocol.service, peer, connection_id) {
+            let _ = run(kernel.protocol.on_connection_closed(peer));
+        }
+    }
+
+    pub fn dial_failure(kernel: &mut Kernel, peer: PeerId) {
+        let _ = run(kernel.protocol.on_dial_failure(peer));
+    }
+
+    /// The oldest substream-open command issued towards any connection fails.
+    pub fn substream_open_failure(kernel: &mut Kernel) -> bool {
+        for rx in kernel.commands.iter_mut() {
+            if let Ok(ProtocolCommand::OpenSubstream { substream_id, .. }) = rx.try_recv() {
+                return run(kernel.protocol.on_substream_open_failure(substream_id, SubstreamError::ConnectionClosed)).map_or(false, |r| r.is_ok());
+            }
+        }
+        false
+    }
+
+    /// Outcomes reported to the user since the last call.
+    pub fn drain_outcomes(kernel: &mut Kernel) -> Vec<Outcome> {
+        let mut out = Vec::new();
+        while let Ok(event) = kernel.event_rx.try_recv() {
+            out.push(match event {
+                InnerRequestResponseEvent::RequestFailed { request_id, .. } => Outcome::Failed(request_id),
+                InnerRequestResponseEvent::ResponseReceived { request_id, .. } => Outcome::Response(request_id),
+                InnerRequestResponseEvent::RequestReceived { request_id, .. } => Outcome::Inbound(request_id),
+            });
+        }
+        out
+    }
+
+    /// Where the protocol tracks `request_id`: (waiting for a dial, waiting for a substream, active on a connected peer).
+    pub fn tracked(kernel: &Kernel, request_id: RequestId) -> (bool, bool, bool) {
+        (
+            kernel.protocol.pending_dials.values().any(|context| context.request_id == request_id),
+            kernel.protocol.pending_outbound.values().any(|context| context.request_id == request_id),
+            kernel.protocol.peers.values().any(|context| context.active.iter().any(|id| *id == request_id)),
+        )
+    }
+}
